@@ -31,6 +31,19 @@ PROPS = {
         runs=[parse_run("abbrev", "1100110", 4000, 200000)],
         rule="every prefix of every key of colliding name sets; non-trivial = name set has two keys sharing a prefix and argv has an option token",
     ),
+    "C06": dict(
+        runs=[parse_run("alias", "0000110", 5000, 200000), parse_run("general", "0000110", 2000, 100000)],
+        rule="definitions where 90% of the options have 1-3 aliases, argv choosing a key per occurrence; non-trivial = some option has an alias and argv has >= 2 option tokens; plus the access-path oracle (pointer, *Var target, Value/Called/CalledAs through every key) on every case",
+        assumptions=["pointer / *Var / Value(x) agreement is by construction in the model (one store entry per option); on the real library it is established by the access-path oracle of the harness"],
+    ),
+    "C07": dict(
+        runs=[parse_run("modes", "1101110", 4000, 200000), parse_run("bundle", "1101110", 3000, 100000), tok_run(30000, 500000)],
+        rule="all three modes with single-dash tokens of any shape (multi-byte letters, attached values, bundles with flags/valued/unknown letters); non-trivial = a single-dash token of length >= 3 or with attached value",
+    ),
+    "C08": dict(
+        runs=[parse_run("unknown", "1101001", 5000, 200000), parse_run("bundle", "1101001", 2000, 100000)],
+        rule="unknown long/short/bundled options with and without attached values planted before/after command tokens and in wrapper commands, 3 unknown modes x 3 single-dash modes; non-trivial = an unknown option was reported, warned about or passed through",
+    ),
     "C09": dict(
         runs=[parse_run("order", "0001110", 4000, 200000)],
         rule="trees with SetRequireOrder at some level; non-trivial = require-order set somewhere and argv has >= 2 tokens",
